@@ -172,16 +172,15 @@ def expandNones : List Item → List Axis → List Axis
   | _ :: its, [] => expandNones its []
 
 /-- `expanded_axes_metadata[item]` in `_get_ensemble_axes_metadata_items`: an OrdinalAxis slices its values; a LinearAxis under a
-slice (any non-zero step) or an evenly spaced index list stays linear: its offset moves to the first selected coordinate and its
-sampling is multiplied by the step (`fwd = (first, step)`; negative for backward selections); under an irregular index list
-(`fwd = none`) it becomes the ordinal axis of the selected coordinates (`to_ordinal_axis(n)[item]`); everything else raises
-TypeError ⇒ `.copy()` -/
+FORWARD slice as written (`item.start ≥ 0` or None, `item.step ≥ 1` or None: `fwd = (start, step)`) moves its offset by
+`start·sampling` and scales its sampling (`LinearAxis.__getitem__`); for every other item (negative start, backward slice, index
+list: `fwd = none`) `LinearAxis.__getitem__` raises TypeError and the axis is copied UNCHANGED (recorded defect); every other axis
+kind raises TypeError ⇒ `.copy()` -/
 def axisGet (a : Axis) (sel : List Nat) (fwd : Option (Int × Int)) : Axis :=
   match a, fwd with
   | .ordinal l vs, _ => .ordinal l (sel.map fun i => vs.getD i 0)
   | .ordinalQ l vs, _ => .ordinalQ l (sel.map fun i => vs.getD i 0)
   | .linear t off samp, some (start, step) => .linear t (off + start * samp) (samp * step)
-  | .linear t off samp, none => .ordinalQ t (sel.map fun (i : Nat) => off + ((i : Int) : Rat) * samp)
   | a, _ => a
 
 /-- all consecutive differences equal `step` (`np.all(np.diff(indices) == step)`) -/
@@ -211,13 +210,14 @@ def resolve : List Item → List Nat → Except Err (List Sel)
       | _, .error e => .error e
   | .slice a b s :: its, n :: dims => match sliceIndices a b s n, resolve its dims with
       | .ok idx, .ok r =>
-          -- `item.indices(n)`; a start of -1 (empty backward selection) makes `LinearAxis.__getitem__` raise TypeError ⇒ plain copy
-          let start := sliceStart a s n
-          .ok (.keep idx (if start < 0 then some (0, 1) else some (start, s.getD 1)) :: r)
+          -- the slice AS WRITTEN reaches `LinearAxis.__getitem__`: forward slices only
+          let start := a.getD 0
+          let step := s.getD 1
+          .ok (.keep idx (if start < 0 || step < 1 then none else some (start, step)) :: r)
       | .error e, _ => .error e
       | _, .error e => .error e
   | .list l :: its, n :: dims => match listIndices l n, resolve its dims with
-      | .ok idx, .ok r => .ok (.keep idx (regularList idx) :: r)
+      | .ok idx, .ok r => .ok (.keep idx none :: r)
       | .error e, _ => .error e
       | _, .error e => .error e
   | .ellipsis :: _, _ => .error .not_implemented
